@@ -7,7 +7,7 @@ namespace Upnp.C08
 
 /-- the row shapes for which the round trip is proved: (Python class, "in" entry, "out" entry) -/
 def goodKinds : List (PyType × InKind × OutKind) := [
-  (.int, .int, .str),
+  (.int, .int, .strInt),
   (.float, .float, .str),
   (.str, .str, .str),
   (.bool, .lowerIn [['1'], ['t','r','u','e'], ['y','e','s']], .ifElse ['1'] ['0']),
@@ -24,6 +24,13 @@ structure GoodTable (tb : Table) : Prop where
 
 /-- Python's documented guarantee `float(repr(x)) == x` (assumed, sampled by the harness) -/
 def FloatOps.RoundTrips {F : Type} (fo : FloatOps F) : Prop := ∀ x, fo.parse (fo.repr x) = some x
+
+/-- in-domain values of exactly the declared class -/
+def exactDomain {F : Type} (ty : PyType) (v : Val F) : Bool :=
+  v.exactType ty && v.wellFormed &&
+  (match v with
+   | .int i => (natDigits i.natAbs).length ≤ maxStrDigits
+   | _ => true)
 
 section
 variable {F : Type} [DecidableEq F] (fo : FloatOps F)
@@ -52,13 +59,13 @@ theorem lower_mask (w : Str) (hw : ∀ c ∈ w, c ∈ ['t','r','u','e','y','s','
   lower_mask_word w (fun c hc => letters_ok c (hw c hc)) m
 
 /-- round trip for one row of a good shape -/
-theorem roundtrip_row (tb : Table) (ht : GoodTable tb) (row : TypeRow) (hr : goodRow row = true)
-    (hf : fo.RoundTrips) (v : Val F) (hv : rtDomain row.ty v = true) :
+theorem roundtrip_exact (tb : Table) (ht : GoodTable tb) (row : TypeRow) (hr : goodRow row = true)
+    (hf : fo.RoundTrips) (v : Val F) (hv : exactDomain row.ty v = true) :
     coerceUpnp fo row v = .ok (wire fo v) ∧ coercePython fo tb row (wire fo v) = .ok v := by
   obtain ⟨name, ty, inK, outK, tz⟩ := row
   simp only [goodRow, goodKinds, List.contains_cons, List.contains_nil, Bool.or_false, Bool.or_eq_true, beq_iff_eq,
     Prod.mk.injEq] at hr
-  simp only [rtDomain, Bool.and_eq_true] at hv
+  simp only [exactDomain, Bool.and_eq_true] at hv
   obtain ⟨⟨hty, hwf⟩, hdig⟩ := hv
   rcases hr with ⟨rfl, rfl, rfl⟩ | ⟨rfl, rfl, rfl⟩ | ⟨rfl, rfl, rfl⟩ | ⟨rfl, rfl, rfl⟩ | ⟨rfl, rfl, rfl⟩ | ⟨rfl, rfl, rfl⟩ | ⟨rfl, rfl, rfl⟩
   · -- int
@@ -66,7 +73,7 @@ theorem roundtrip_row (tb : Table) (ht : GoodTable tb) (row : TypeRow) (hr : goo
     rename_i i
     simp only [decide_eq_true_eq] at hdig
     constructor
-    · simp [coerceUpnp, pyStr, intStr, wire]; omega
+    · simp [coerceUpnp, pyIntOf, intStr, wire]; omega
     · simp [coercePython, wire, pyInt_decInt i hdig]
   · -- float
     cases v <;> simp [Val.exactType] at hty
@@ -127,19 +134,19 @@ theorem good_temporal_in (row : TypeRow) (hr : goodRow row = true)
     first | rfl | (rcases h with h | h <;> cases h)
 
 /-- every accepted spelling of an in-domain value is read back as that value -/
-theorem spelling_row (tb : Table) (ht : GoodTable tb) (row : TypeRow) (hr : goodRow row = true)
-    (hf : fo.RoundTrips) (sp : Spelling) (v : Val F) (s : Str) (hv : rtDomain row.ty v = true)
+theorem spelling_exact (tb : Table) (ht : GoodTable tb) (row : TypeRow) (hr : goodRow row = true)
+    (hf : fo.RoundTrips) (sp : Spelling) (v : Val F) (s : Str) (hv : exactDomain row.ty v = true)
     (hs : spell fo sp v = some s) : coercePython fo tb row s = .ok v := by
   cases sp with
   | canon =>
     simp only [spell, Option.some.injEq] at hs
     subst hs
-    exact (roundtrip_row fo tb ht row hr hf v hv).2
+    exact (roundtrip_exact fo tb ht row hr hf v hv).2
   | boolWord k m =>
     obtain ⟨name, ty, inK, outK, tz⟩ := row
     cases v <;> simp [spell] at hs
     rename_i b
-    simp only [rtDomain, Val.exactType, Bool.and_eq_true, beq_iff_eq] at hv
+    simp only [exactDomain, Val.exactType, Bool.and_eq_true, beq_iff_eq] at hv
     have hty : ty = .bool := hv.1.1
     subst hty
     simp only [goodRow, goodKinds, List.contains_cons, List.contains_nil, Bool.or_false, Bool.or_eq_true, beq_iff_eq,
@@ -161,7 +168,7 @@ theorem spelling_row (tb : Table) (ht : GoodTable tb) (row : TypeRow) (hr : good
     rename_i d t o
     cases o <;> simp at hs
     subst hs
-    simp only [rtDomain, Val.exactType, Val.wellFormed, Bool.and_eq_true, beq_iff_eq] at hv
+    simp only [exactDomain, Val.exactType, Val.wellFormed, Bool.and_eq_true, beq_iff_eq] at hv
     obtain ⟨⟨hty, ⟨hd, htv⟩, _⟩, _⟩ := hv
     simp only [coercePython, good_temporal_in row hr (Or.inl hty), ht.matchers, ht.guard]
     exact parse_isoDateTime ' ' (Or.inr rfl) d t hd htv
@@ -171,7 +178,7 @@ theorem spelling_row (tb : Table) (ht : GoodTable tb) (row : TypeRow) (hr : good
       cases o <;> simp at hs
       rename_i x
       subst hs
-      simp only [rtDomain, Val.exactType, Val.wellFormed, Bool.and_eq_true, beq_iff_eq] at hv
+      simp only [exactDomain, Val.exactType, Val.wellFormed, Bool.and_eq_true, beq_iff_eq] at hv
       obtain ⟨⟨hty, ⟨hd, htv⟩, ho⟩, _⟩ := hv
       simp only [coercePython, good_temporal_in row hr (Or.inl hty), ht.matchers, ht.guard]
       rw [offPlainStr_eq]
@@ -180,7 +187,7 @@ theorem spelling_row (tb : Table) (ht : GoodTable tb) (row : TypeRow) (hr : good
       cases o <;> simp at hs
       rename_i x
       subst hs
-      simp only [rtDomain, Val.exactType, Val.wellFormed, Bool.and_eq_true, beq_iff_eq] at hv
+      simp only [exactDomain, Val.exactType, Val.wellFormed, Bool.and_eq_true, beq_iff_eq] at hv
       obtain ⟨⟨hty, htv, ho⟩, _⟩ := hv
       simp only [coercePython, good_temporal_in row hr (Or.inr hty), ht.matchers, ht.guard]
       rw [offPlainStr_eq]
@@ -191,7 +198,7 @@ theorem spelling_row (tb : Table) (ht : GoodTable tb) (row : TypeRow) (hr : good
       cases o <;> simp at hs
       rename_i x
       subst hs
-      simp only [rtDomain, Val.exactType, Val.wellFormed, Bool.and_eq_true, beq_iff_eq] at hv
+      simp only [exactDomain, Val.exactType, Val.wellFormed, Bool.and_eq_true, beq_iff_eq] at hv
       obtain ⟨⟨hty, ⟨hd, htv⟩, ho⟩, _⟩ := hv
       simp only [coercePython, good_temporal_in row hr (Or.inl hty), ht.matchers, ht.guard]
       have := parse_isoDateTime_off (F := F) true false d t x hd htv ho
@@ -200,7 +207,7 @@ theorem spelling_row (tb : Table) (ht : GoodTable tb) (row : TypeRow) (hr : good
       cases o <;> simp at hs
       rename_i x
       subst hs
-      simp only [rtDomain, Val.exactType, Val.wellFormed, Bool.and_eq_true, beq_iff_eq] at hv
+      simp only [exactDomain, Val.exactType, Val.wellFormed, Bool.and_eq_true, beq_iff_eq] at hv
       obtain ⟨⟨hty, htv, ho⟩, _⟩ := hv
       simp only [coercePython, good_temporal_in row hr (Or.inr hty), ht.matchers, ht.guard]
       have := parse_isoTime_off (F := F) true false t x htv ho
@@ -211,7 +218,7 @@ theorem spelling_row (tb : Table) (ht : GoodTable tb) (row : TypeRow) (hr : good
       cases o <;> simp at hs
       rename_i x
       subst hs
-      simp only [rtDomain, Val.exactType, Val.wellFormed, Bool.and_eq_true, beq_iff_eq] at hv
+      simp only [exactDomain, Val.exactType, Val.wellFormed, Bool.and_eq_true, beq_iff_eq] at hv
       obtain ⟨⟨hty, ⟨hd, htv⟩, ho⟩, _⟩ := hv
       simp only [coercePython, good_temporal_in row hr (Or.inl hty), ht.matchers, ht.guard]
       have := parse_isoDateTime_off (F := F) true true d t x hd htv ho
@@ -220,7 +227,7 @@ theorem spelling_row (tb : Table) (ht : GoodTable tb) (row : TypeRow) (hr : good
       cases o <;> simp at hs
       rename_i x
       subst hs
-      simp only [rtDomain, Val.exactType, Val.wellFormed, Bool.and_eq_true, beq_iff_eq] at hv
+      simp only [exactDomain, Val.exactType, Val.wellFormed, Bool.and_eq_true, beq_iff_eq] at hv
       obtain ⟨⟨hty, htv, ho⟩, _⟩ := hv
       simp only [coercePython, good_temporal_in row hr (Or.inr hty), ht.matchers, ht.guard]
       have := parse_isoTime_off (F := F) true true t x htv ho
@@ -232,10 +239,73 @@ theorem spelling_row (tb : Table) (ht : GoodTable tb) (row : TypeRow) (hr : good
     rename_i x
     obtain ⟨hx, hs⟩ := hs
     subst hx hs
-    simp only [rtDomain, Val.exactType, Val.wellFormed, Bool.and_eq_true, beq_iff_eq] at hv
+    simp only [exactDomain, Val.exactType, Val.wellFormed, Bool.and_eq_true, beq_iff_eq] at hv
     obtain ⟨⟨hty, ⟨hd, htv⟩, _⟩, _⟩ := hv
     simp only [coercePython, good_temporal_in row hr (Or.inl hty), ht.matchers, ht.guard]
     simpa using parse_isoDateTime_zulu (F := F) up d t hd htv
+
+/-! ### the full round-trip domain: exact class, or a `bool` under an integer type -/
+
+theorem rtDomain_cases (ty : PyType) (v : Val F) (h : rtDomain ty v = true) :
+    exactDomain ty v = true ∨ (ty = .int ∧ ∃ b, v = .bool b) := by
+  simp only [rtDomain, valueOk, boolAsInt, Bool.and_eq_true, Bool.or_eq_true, beq_iff_eq] at h
+  obtain ⟨h1, h2, h3⟩ := h
+  rcases h1 with h1 | ⟨h1, hb⟩
+  · left; simp only [exactDomain, Bool.and_eq_true]; exact ⟨⟨h1, h2⟩, h3⟩
+  · right
+    refine ⟨h1, ?_⟩
+    cases v <;> simp at hb
+    exact ⟨_, rfl⟩
+
+theorem expectBack_exact (ty : PyType) (v : Val F) (h : v.exactType ty = true) : expectBack ty v = v := by
+  cases ty <;> cases v <;> simp [Val.exactType] at h <;> rfl
+
+theorem exactDomain_exact (ty : PyType) (v : Val F) (h : exactDomain ty v = true) : v.exactType ty = true := by
+  simp only [exactDomain, Bool.and_eq_true] at h; exact h.1.1
+
+/-- an integer row of a good shape sends a `bool` as `1`/`0` and reads it back as the integer `1`/`0` -/
+theorem roundtrip_bool_int (tb : Table) (row : TypeRow) (hr : goodRow row = true) (hty : row.ty = .int) (b : Bool) :
+    coerceUpnp fo row (.bool b) = .ok [if b then '1' else '0']
+    ∧ coercePython fo tb row [if b then '1' else '0'] = .ok (.int (if b then 1 else 0)) := by
+  obtain ⟨name, ty, inK, outK, tz⟩ := row
+  simp only at hty
+  subst hty
+  simp only [goodRow, goodKinds, List.contains_cons, List.contains_nil, Bool.or_false, Bool.or_eq_true, beq_iff_eq,
+    Prod.mk.injEq] at hr
+  rcases hr with ⟨_, rfl, rfl⟩ | ⟨h, _, _⟩ | ⟨h, _, _⟩ | ⟨h, _, _⟩ | ⟨h, _, _⟩ | ⟨h, _, _⟩ | ⟨h, _, _⟩ <;> try cases h
+  have i0 : intStr 0 = .ok ['0'] := rfl
+  have i1 : intStr 1 = .ok ['1'] := rfl
+  have p0 : pyInt? ['0'] = some 0 := by decide
+  have p1 : pyInt? ['1'] = some 1 := by decide
+  cases b
+  · exact ⟨by simp [coerceUpnp, pyIntOf, i0], by simp [coercePython, p0]⟩
+  · exact ⟨by simp [coerceUpnp, pyIntOf, i1], by simp [coercePython, p1]⟩
+
+/-- round trip for one row of a good shape, over the whole round-trip domain -/
+theorem roundtrip_row (tb : Table) (ht : GoodTable tb) (row : TypeRow) (hr : goodRow row = true)
+    (hf : fo.RoundTrips) (v : Val F) (hv : rtDomain row.ty v = true) :
+    coerceUpnp fo row v = .ok (wire fo v) ∧ coercePython fo tb row (wire fo v) = .ok (expectBack row.ty v) := by
+  rcases rtDomain_cases row.ty v hv with he | ⟨hty, b, rfl⟩
+  · rw [expectBack_exact row.ty v (exactDomain_exact row.ty v he)]
+    exact roundtrip_exact fo tb ht row hr hf v he
+  · have := roundtrip_bool_int fo tb row hr hty b
+    simp only [wire, expectBack, hty]
+    exact this
+
+/-- every accepted spelling of an in-domain value is read back as that value -/
+theorem spelling_row (tb : Table) (ht : GoodTable tb) (row : TypeRow) (hr : goodRow row = true)
+    (hf : fo.RoundTrips) (sp : Spelling) (v : Val F) (s : Str) (hv : spellDomain row.ty sp v = true)
+    (hs : spell fo sp v = some s) : coercePython fo tb row s = .ok (expectBack row.ty v) := by
+  simp only [spellDomain, Bool.and_eq_true, Bool.or_eq_true, beq_iff_eq] at hv
+  obtain ⟨hd, hsp⟩ := hv
+  rcases hsp with rfl | hex
+  · simp only [spell, Option.some.injEq] at hs
+    subst hs
+    exact (roundtrip_row fo tb ht row hr hf v hd).2
+  · rw [expectBack_exact row.ty v hex]
+    rcases rtDomain_cases row.ty v hd with he | ⟨hty, b, rfl⟩
+    · exact spelling_exact fo tb ht row hr hf sp v s he hs
+    · simp [Val.exactType, hty] at hex
 
 end
 end Upnp.C08
